@@ -124,6 +124,25 @@ func powT(x, n *Term) *Term { return App("pow", SInt, x, n) }
 func init() {
 	zero := ConstI(0)
 	two := ConstI(2)
+	// two representatives in [0, q) of the same class are equal
+	{
+		lm := &Lemma{Name: "cong_small", NParams: 3, Params: []string{"a", "b", "q"}, Doc: "a ≡ b (mod q), 0 <= a, b < q  =>  a = b"}
+		lm.Stmt = func(a []*Term) *Term {
+			return Implies(And(congT(a[0], a[1], a[2]), Le(zero, a[0]), Lt(a[0], a[2]), Le(zero, a[1]), Lt(a[1], a[2])), Eq(a[0], a[1]))
+		}
+		lm.Proof = func() *Obligation {
+			a, b, q, k := Var("a", SInt), Var("b", SInt), Var("q", SInt), Var("k", SInt)
+			return &Obligation{Name: "lemma/cong_small", Func: "lemma-library", Kind: "lemma", Native: true,
+				Assume: []*Term{Eq(a, Add(b, Mul(k, q))), Le(zero, a), Lt(a, q), Le(zero, b), Lt(b, q)}, Goal: Eq(a, b)}
+		}
+		lemmaLib["cong_small"] = lm
+	}
+	addLean("pow_one", "pow_one_lvc", []string{"x"},
+		func(a []*Term) *Term { return Eq(powT(a[0], ConstI(1)), a[0]) }, "x^1 = x")
+	addLean("pow_odd_unit", "odd_pow_2_63", []string{"x"},
+		func(a []*Term) *Term {
+			return Implies(Eq(Mod(a[0], two), ConstI(1)), congT(powT(a[0], Const(pow2(63))), ConstI(1), Const(W64)))
+		}, "x odd => x^(2^63) ≡ 1 (mod 2^64)")
 	addLean("pow_zero", "pow_zero_lvc", []string{"x"},
 		func(a []*Term) *Term { return Eq(powT(a[0], zero), ConstI(1)) }, "x^0 = 1")
 	addLean("pow_even", "pow_even_step", []string{"x", "i"},
